@@ -150,7 +150,7 @@ func runC10(c *core.Ctx) {
 	checkFixedTableIndices(c, "R10.9")
 	c.Rule("R10.15", "a backend that cannot be reached when a client connects does not bring the proxy down: the accept loop never closes the (non-nil, zero-valued) handler of a failed constructor call (shared with C15)", 2)
 	runR157(c, "R10.15")
-	c.Share(map[string]string{"R6.3": "R10.13"}, runC06)  // a command whose expected reply is not counted is acknowledged (zero response) when its connection breaks: the old value stays
+	c.Share(map[string]string{"R6.3": "R10.13"}, runC06)                     // a command whose expected reply is not counted is acknowledged (zero response) when its connection breaks: the old value stays
 	c.Share(map[string]string{"R12.1": "R10.10"}, runC12)                    // a key lock leaked on an error path below blocks every later command on that stripe, on every connection
 	c.Share(map[string]string{"R13.4": "R10.11", "R13.9": "R10.12"}, runC13) // a pooled connection wedged by a backend fault hangs every request routed to it
 }
